@@ -34,6 +34,10 @@ type Knobs struct {
 	GCEveryUs    int64   `json:"gc_every_us"` // 0 = no scheduled GC
 	LogDebug     bool    `json:"log_debug"`
 	GnetReadCap  int     `json:"gnet_read_cap"`
+	// PoolPoison: released pooled objects (messages, records, questions,
+	// request contexts) are poisoned, quarantined and checked (vsync.Pool).
+	PoolPoison     bool `json:"pool_poison,omitempty"`
+	PoolQuarantine int  `json:"pool_quarantine,omitempty"`
 }
 
 // ---- router family ----
